@@ -516,6 +516,14 @@ var spkBurstMode = true
 // spkFaultMenu: one refused session update as a bounded fault event (C05)
 var spkFaultMenu = false
 
+// spkReadFaultMenu: one failing API read inside a delivery as a bounded fault event (C09)
+var spkReadFaultMenu = false
+var spkReadFaultKinds = map[string][]string{
+	"dcfg":  {"IPAddressPool", "BGPPeer", "BFDProfile", "L2Advertisement", "BGPAdvertisement", "Community", "Secret", "Node", "Namespace", "ConfigMap"},
+	"dnode": {"Node"},
+	"dsvc":  {"Service", "EndpointSlice"},
+}
+
 func (s *spkSys) retryMark() string {
 	var ks []string
 	for k := range s.errKeys {
@@ -552,6 +560,22 @@ func (s *spkSys) Enabled() []verifrt.Event {
 	}
 	for _, k := range s.svcQ.Keys() {
 		evs = append(evs, verifrt.Event{Kind: "dsvc", S: k})
+	}
+	if spkReadFaultMenu {
+		// one read of the API (List of a kind, Get of the object) fails once during the delivery
+		if s.cfgQ.Has("config") {
+			for i := range spkReadFaultKinds["dcfg"] {
+				evs = append(evs, verifrt.Event{Kind: "dcfg", A: 100 + i, Fault: true})
+			}
+		}
+		for _, k := range s.nodeQ.Keys() {
+			evs = append(evs, verifrt.Event{Kind: "dnode", S: k, A: 100, Fault: true})
+		}
+		for _, k := range s.svcQ.Keys() {
+			for i := range spkReadFaultKinds["dsvc"] {
+				evs = append(evs, verifrt.Event{Kind: "dsvc", S: k, A: 100 + i, Fault: true})
+			}
+		}
 	}
 	if spkFaultMenu && s.u.L2 == false {
 		for _, k := range s.svcQ.Keys() {
@@ -633,6 +657,26 @@ func (s *spkSys) Apply(ev verifrt.Event) {
 	} else {
 		s.burst = 0
 	}
+	readFault := false
+	if ev.Fault && ev.A >= 100 && (ev.Kind == "dcfg" || ev.Kind == "dnode" || ev.Kind == "dsvc") {
+		kindToFail := spkReadFaultKinds[ev.Kind][ev.A-100]
+		failed := false
+		s.store.Fail = func(op, kind string) error {
+			if (op == "list" || op == "get") && kind == kindToFail && !failed {
+				failed = true
+				readFault = true
+				return fmt.Errorf("verif: injected read failure")
+			}
+			return nil
+		}
+		defer func() { s.store.Fail = nil }()
+	}
+	// a delivery that failed on an injected read failure is retried as new work, not as the retry of a refusal
+	defer func() {
+		if readFault {
+			delete(s.errKeys, map[string]string{"dcfg": "cfg/config", "dnode": "node/" + ev.S, "dsvc": "svc/" + ev.S}[ev.Kind])
+		}
+	}()
 	switch ev.Kind {
 	case "svc":
 		n := s.u.Svcs[ev.A]
